@@ -26,6 +26,7 @@ import (
 	"verif/internal/ctfex"
 	"verif/internal/harness"
 	"verif/internal/keys"
+	"verif/internal/memstore"
 	"verif/internal/mtree"
 	"verif/internal/reflog"
 	"verif/internal/rfc6962"
@@ -42,8 +43,10 @@ type Op struct {
 
 type Case struct {
 	LogKeyKind string
+	LogKeyIdx  int // which pool key of that kind: different cases use different log keys within one process
 	Ops        []Op
 	ClockMs    int64
+	Indirect   bool // external issuance-chain storage
 	// concurrent variant
 	Workers int
 }
@@ -81,6 +84,8 @@ func genOps(t *rapid.T, n int, label string) []Op {
 
 func gen(t *rapid.T) Case {
 	c := Case{LogKeyKind: rapid.SampledFrom([]string{"p256", "p256", "rsa2048"}).Draw(t, "logkey")}
+	c.LogKeyIdx = rapid.IntRange(0, 5).Draw(t, "logkeyidx")
+	c.Indirect = rapid.IntRange(0, 3).Draw(t, "indirect") == 0
 	c.ClockMs = rapid.Int64Range(1, 4102444800000).Draw(t, "clock")
 	c.Ops = genOps(t, rapid.IntRange(5, 40).Draw(t, "n"), "")
 	return c
@@ -111,12 +116,24 @@ type run struct {
 	issued []issued
 	sths   []sthRec
 	seqNs  uint64
+	// wantExtra maps a stored leaf value to the acceptable RFC 6962 extra_data encodings of the entry
+	// (needed with external chain storage, where the backend leaf holds a hash instead of the chain)
+	wantExtra map[string][][]byte
+	indirect  bool
+	// lc2 talks to a second log instance with ANOTHER key over the same backend (two logs in one process
+	// whose tree heads are byte-identical): each must serve STHs under its own key
+	lc2 *client.LogClient
 }
 
 func newRun(t *testing.T, v *harness.Verdict, c Case) *run {
-	r := &run{t: t, v: v, logKey: keys.Pick(c.LogKeyKind, 3), be: reflog.New(6962, 1000003)}
+	r := &run{t: t, v: v, logKey: keys.Pick(c.LogKeyKind, 3+c.LogKeyIdx), be: reflog.New(6962, 1000003), wantExtra: map[string][][]byte{}, indirect: c.Indirect}
 	r.clock = ctfex.NewClock(time.UnixMilli(c.ClockMs))
-	inst, err := ctfex.New(ctfex.Opts{LogKey: r.logKey, Roots: world.Roots(), Backend: r.be, Clock: r.clock})
+	o := ctfex.Opts{LogKey: r.logKey, Roots: world.Roots(), Backend: r.be, Clock: r.clock}
+	if c.Indirect {
+		o.ChainStorage = memstore.New()
+		v.Class("external-chain-storage")
+	}
+	inst, err := ctfex.New(o)
 	if err != nil {
 		t.Fatalf("instance: %v", err)
 	}
@@ -126,6 +143,13 @@ func newRun(t *testing.T, v *harness.Verdict, c Case) *run {
 		t.Fatalf("client: %v", err)
 	}
 	r.lc = lc
+	key2 := keys.Pick("p256", 10+c.LogKeyIdx)
+	if key2 == r.logKey {
+		key2 = keys.Pick("p256", 11+c.LogKeyIdx)
+	}
+	if inst2, err := ctfex.New(ctfex.Opts{LogKey: key2, Roots: world.Roots(), Backend: r.be, Clock: r.clock, Prefix: "twin"}); err == nil {
+		r.lc2, _ = client.New("http://log.example/twin", &http.Client{Transport: ctfex.RoundTripper{Inst: inst2}}, jsonclient.Options{PublicKeyDER: key2.SPKI})
+	}
 	r.seqNs = uint64(c.ClockMs)*1e6 + 999
 	return r
 }
@@ -227,6 +251,11 @@ func (r *run) exec(ctx context.Context, op Op, concurrent bool) {
 			r.failf("valid-chain-refused", "submission refused: %v", err)
 			return
 		}
+		if lv, err := rfc6962.EncodeLeaf(rfc6962.Leaf{Timestamp: sct.Timestamp, Entry: b.Entry(), Extensions: sct.Extensions}); err == nil && !altered {
+			r.mu.Lock()
+			r.wantExtra[string(lv)] = append(r.wantExtra[string(lv)], b.ExtraData())
+			r.mu.Unlock()
+		}
 		r.mu.Lock()
 		r.issued = append(r.issued, issued{b, sct, asn1Chain(chain)})
 		r.mu.Unlock()
@@ -287,8 +316,8 @@ func (r *run) exec(ctx context.Context, op Op, concurrent bool) {
 				break
 			}
 			want := r.be.Leaf(start + i)
-			if !bytes.Equal(e.LeafInput, want.LeafValue) || !bytes.Equal(e.ExtraData, want.ExtraData) {
-				r.failf("entry-bytes", "get-entries(%d,%d) entry %d differs from the stored leaf", start, end, i)
+			if !bytes.Equal(e.LeafInput, want.LeafValue) || !r.extraOK(want.LeafValue, want.ExtraData, e.ExtraData) {
+				r.failf("entry-bytes", "get-entries(%d,%d) entry %d differs from the stored entry (external chain storage: %v)", start, end, i, r.indirect)
 			}
 		}
 	case "eap":
@@ -304,8 +333,8 @@ func (r *run) exec(ctx context.Context, op Op, concurrent bool) {
 			return
 		}
 		want := r.be.Leaf(int(i))
-		if !bytes.Equal(rsp.LeafInput, want.LeafValue) || !bytes.Equal(rsp.ExtraData, want.ExtraData) {
-			r.failf("entry-bytes", "get-entry-and-proof(%d,%d) bytes differ from the stored leaf", i, n)
+		if !bytes.Equal(rsp.LeafInput, want.LeafValue) || !r.extraOK(want.LeafValue, want.ExtraData, rsp.ExtraData) {
+			r.failf("entry-bytes", "get-entry-and-proof(%d,%d) bytes differ from the stored entry (external chain storage: %v)", i, n, r.indirect)
 		}
 		root := r.rootFor(n)
 		if err := mtree.VerifyInclusion(mtree.LeafHash(rsp.LeafInput), i, n, rsp.AuditPath, root[:]); err != nil {
@@ -331,6 +360,26 @@ func (r *run) exec(ctx context.Context, op Op, concurrent bool) {
 			r.failf("roots-set", "get-roots returned %d certificates, configured pool has %d (or contents differ)", len(g), len(w))
 		}
 	}
+}
+
+// extraOK judges served extra_data: with chains inside the backend leaf it must equal the stored bytes, with
+// external chain storage it must be the RFC 6962 structure of the chain validated at submission.
+func (r *run) extraOK(leafValue, storedExtra, served []byte) bool {
+	if !r.indirect {
+		return bytes.Equal(storedExtra, served)
+	}
+	r.mu.Lock()
+	defer r.mu.Unlock()
+	set, ok := r.wantExtra[string(leafValue)]
+	if !ok {
+		return true // not an entry this run submitted with a recorded chain
+	}
+	for _, x := range set {
+		if bytes.Equal(x, served) {
+			return true
+		}
+	}
+	return false
 }
 
 // rootFor returns the root of the tree of size n: from a served STH when there is one, else from the reference tree.
@@ -376,6 +425,15 @@ func (r *run) getSTH(ctx context.Context, concurrent bool) {
 	r.mu.Lock()
 	r.sths = append(r.sths, sthRec{sth.TreeSize, sth.SHA256RootHash, sth.Timestamp})
 	r.mu.Unlock()
+	if r.lc2 != nil {
+		// the twin log (same backend, other key) is asked right after: its client verifies under the twin's key
+		if _, err := r.lc2.GetSTH(ctx); err != nil {
+			r.failf("twin-sth", "a second log instance with its own key over the same tree served an STH its key does not verify: %v", err)
+		}
+		if _, err := r.lc.GetSTH(ctx); err != nil {
+			r.failf("twin-sth", "after the twin log was asked, the first log's STH no longer verifies under its key: %v", err)
+		}
+	}
 }
 
 func (r *run) proofByHash(ctx context.Context, op Op) {
@@ -573,6 +631,9 @@ func (r *run) finalChecks(ctx context.Context) {
 func check(t *testing.T, c Case) (v harness.Verdict) {
 	r := newRun(t, &v, c)
 	ctx := context.Background()
+	// every history starts by asking for the STH of the empty tree: its signed bytes are the same in every
+	// case of a process while the log keys differ from case to case
+	r.exec(ctx, Op{Kind: "sth"}, false)
 	for _, op := range c.Ops {
 		r.exec(ctx, op, false)
 	}
@@ -592,7 +653,7 @@ var History = harness.Define(harness.Opts{
 // ---- concurrent variant
 
 func genConc(t *rapid.T) Case {
-	c := Case{LogKeyKind: "p256", Workers: rapid.IntRange(2, 6).Draw(t, "workers")}
+	c := Case{LogKeyKind: "p256", Workers: rapid.IntRange(2, 6).Draw(t, "workers"), LogKeyIdx: rapid.IntRange(0, 5).Draw(t, "logkeyidx"), Indirect: rapid.IntRange(0, 3).Draw(t, "indirect") == 0}
 	c.ClockMs = rapid.Int64Range(1, 4102444800000).Draw(t, "clock")
 	c.Ops = genOps(t, rapid.IntRange(10, 40).Draw(t, "n"), "")
 	return c
